@@ -27,19 +27,18 @@ fn compute_env_names() -> Vec<&'static str> {
     let mut v: Vec<&'static str> = Vec::new();
     v.extend(ENVS.iter().copied());
     v.extend(["BPAF_V_G", "BPAF_V_H", "bpaf_v_i", "Bpaf_V_J", "bpaf_V_k2"].iter().copied());
-    v.extend(LOOKALIKE_ENVS.iter().copied());
+    // names derived from declarable ones: other case, suffix, prefix
     let derived: Vec<&'static str> = v
         .iter()
         .flat_map(|n| {
             [
                 crate::shape::intern(&n.to_uppercase()),
                 crate::shape::intern(&n.to_lowercase()),
-                crate::shape::intern(&format!("{}_", n)),
-                crate::shape::intern(&format!("APP_{}", n)),
             ]
         })
         .collect();
     v.extend(derived);
+    v.extend(LOOKALIKE_ENVS.iter().copied());
     v.sort_unstable();
     v.dedup();
     v
@@ -860,7 +859,7 @@ pub fn raw_pool() -> Vec<Tok> {
 pub fn long_cluster(r: &mut Rng) -> Tok {
     let mut v = vec![b'-'];
     let letters = [b'v', b'a', b'b', b'x', b'1'];
-    let n = r.range(100, 2048);
+    let n = r.range(100, 300);
     let mixed = r.chance(1, 3);
     let first = *r.pick(&letters[..]);
     for _ in 0..n {
